@@ -12,6 +12,10 @@ PROP = dict(
         "Comdex.C16.site_TransferFundsForSwapFeeDistribution_perm_invariant",
         "Comdex.C16.swapFeeTotal_closed_form",
         "Comdex.C16.appendInOrder_order_dependent", "Comdex.C16.firstMatch_order_dependent",
+        "Comdex.C16.site_SortOrders_perm_invariant", "Comdex.C16.isSort_goSortStable", "Comdex.C16.sortOrders_amountOnly_order_dependent",
+        "Comdex.C16.table_sortSites_reviewed", "Comdex.C16.table_sortSites_safe", "Comdex.C16.table_sortSites_text",
+        "Comdex.C16.table_floatUses", "Comdex.C16.table_floatUses_size", "Comdex.C16.table_reflectUses", "Comdex.C16.table_syncUses",
+        "Comdex.C16.table_zoneUses", "Comdex.C16.table_spot_entries_vocabulary",
         "Comdex.C16.table_mapRangeSites_proven", "Comdex.C16.table_mapRangeSites_size", "Comdex.C16.table_mapRangeSites_text", "Comdex.C16.table_provenSites_live",
         "Comdex.C16.table_goStatements", "Comdex.C16.table_selectStmts", "Comdex.C16.table_chanOps",
         "Comdex.C16.table_wallClockUses", "Comdex.C16.table_randUses", "Comdex.C16.table_randUses_not_in_keepers",
@@ -19,6 +23,7 @@ PROP = dict(
         "Comdex.C16.table_mapArgsExternal", "Comdex.C16.no_mutable_package_state", "Comdex.C16.table_mutablePackageState_size", "Comdex.C16.table_scan_coverage", "Comdex.C16.table_spot_entries",
     ],
     harness_tests=["TestC16"],
+    monitors=["replay_equal", "results_equal", "site_stable"],
     trusted_base=[KERNEL_TB, HARNESS_TB,
                   "extract/determinism (Go, go/packages + go/types over the working tree): finds every `range` over a map-typed "
                   "expression, go/select/channel statements, wall-clock, rand, env and unsafe uses in non-test, non-generated files "
